@@ -557,8 +557,10 @@ pub fn value_case(name: &str, i: u64) -> Option<(Message, [Vec<XRec>; 3], MetaEx
             if !matches!(key, SvcParamKey::Key(_) | SvcParamKey::Unknown(_)) {
                 return None;
             }
-            let w = [&[0u8, 1, 0][..], &k.to_be_bytes(), &[0, 2, 0xc0, 0x0c]].concat();
-            let d = RData::SVCB(SVCB::new(1, hn("."), vec![(key, SvcParamValue::Unknown(SvcUnknown(vec![0xc0, 0x0c])))]));
+            // odd keys carry an empty value as the LAST parameter of the RDATA (exactly 4 octets remain for it)
+            let val: Vec<u8> = if k % 2 == 1 { vec![] } else { vec![0xc0, 0x0c] };
+            let w = [&[0u8, 1, 0][..], &k.to_be_bytes(), &(val.len() as u16).to_be_bytes(), &val].concat();
+            let d = RData::SVCB(SVCB::new(1, hn("."), vec![(key, SvcParamValue::Unknown(SvcUnknown(val)))]));
             exp[0].push(xr("a.z.", 1, 64, d, w));
         }
         "edns-payload" => edns = Some(EdnsSpec { payload: i as u16, ..EdnsSpec::plain("p") }),
@@ -696,7 +698,8 @@ pub fn large_seeds(al: &Alpha, which: &[usize]) -> Vec<LargeSeed> {
                     r.name = hn(&format!("h{}.{}", i % 97, ["a.z.", "A.z.", "b.a.z.", "z."][i % 4]));
                     m.add_answer(r);
                 }
-                out.push(LargeSeed { tag: if w == 0 { "axfr-like" } else { "names-beyond-3fff" }, bytes: m.to_vec().expect("large seed encodes") });
+                // an encoder failure on these valid messages is reported by the caller (empty octets)
+                out.push(LargeSeed { tag: if w == 0 { "axfr-like" } else { "names-beyond-3fff" }, bytes: m.to_vec().unwrap_or_default() });
             }
             _ => {
                 let mut rrs = vec![];
